@@ -188,6 +188,12 @@ def init_and_train_gp(
 
         except np.linalg.LinAlgError:
             training_failures += 1
+            # (a fit that failed in its closing posterior computation leaves
+            # empty posterior slots behind, which the retries cannot read)
+            if gp.posteriors is not None and any(
+                p is None for p in np.ravel(gp.posteriors)
+            ):
+                gp.posteriors = None
             logger.warning(
                 f"bads:gp: Cholesky decomposition has failed. The initial fit on the GP has failed due to the hyp. init."
             )
